@@ -283,7 +283,16 @@ pub fn check_frame(run: &mut Run, c: &FrameCheck, data: &[u8], frame: &[u8]) -> 
         }
         Ok(Err(e)) => {
             ok = false;
-            fail_all(run, c.rt_props, "roundtrip_ruzstd_error", format!("{}: FrameDecoder::decode_all fails on the compressor's own frame: {:?}", c.label, e), c.replay)
+            let es = format!("{:?}", e);
+            // an entropy table the compressor wrote and the decoder refuses: also the FSE / Huffman property's own words
+            // ("every table description the compressor writes parses back to exactly the table the compressor used")
+            if es.contains("FSETableError") || es.contains("FSEDecoderError") {
+                run.fail("C12", "compressor_fse_table_rejected", format!("{}: the decoder refuses an FSE table / stream the compressor wrote: {}", c.label, es), c.replay.to_string());
+            }
+            if es.contains("HuffmanTableError") || es.contains("HuffmanDecoderError") {
+                run.fail("C13", "compressor_huffman_rejected", format!("{}: the decoder refuses a Huffman table / stream the compressor wrote: {}", c.label, es), c.replay.to_string());
+            }
+            fail_all(run, c.rt_props, "roundtrip_ruzstd_error", format!("{}: FrameDecoder::decode_all fails on the compressor's own frame: {}", c.label, es), c.replay)
         }
         Err(p) => {
             ok = false;
@@ -749,9 +758,12 @@ pub fn run(opts: &Opts) -> Run {
     run.stat("corpus_inputs", inputs.len() as u64);
     // ---- 2. content-directed inputs
     inputs.extend(directed_inputs(&mut rng, opts.thorough));
+    // `--focus entropy`: only the corpus and the content-directed inputs at level Fastest, implementation-side oracles only
+    // (used by the FSE / Huffman properties to look for an entropy table the compressor writes and no decoder accepts)
+    let entropy_only = opts.focus.as_deref() == Some("entropy");
     // ---- 3. gen::data kinds
     // (the model side now runs the matcher and the entropy coders: about 0.7 MB of input per second)
-    let n_rand = if opts.thorough { 1500 } else { 120 };
+    let n_rand = if entropy_only { 0 } else if opts.thorough { 1500 } else { 120 };
     let max = if opts.thorough { 2 * 1024 * 1024 } else { 300 * 1024 };
     for i in 0..n_rand {
         let kind = gen::DATA_KINDS[i % gen::DATA_KINDS.len()];
@@ -767,6 +779,9 @@ pub fn run(opts: &Opts) -> Run {
         for lvl in [Lvl::F, Lvl::U] {
             // Uncompressed on big inputs only now and then in the quick tier (cost is in the model's hex parsing)
             if lvl == Lvl::U && !opts.thorough && data.len() > 70_000 && i % 3 != 0 {
+                continue;
+            }
+            if entropy_only && lvl == Lvl::U {
                 continue;
             }
             let api = apis[(i + lvl as usize) % 3];
@@ -793,6 +808,9 @@ pub fn run(opts: &Opts) -> Run {
         }
     }
 
+    if entropy_only {
+        return run;
+    }
     // ---- 4. unimplemented levels: empty input is framed without touching the level match; anything else panics
     for lvl in [Lvl::D, Lvl::B, Lvl::X] {
         for data in [vec![], vec![1u8], rng.bytes(300)] {
